@@ -197,6 +197,7 @@ func TestC20(t *testing.T) {
 			}
 		}
 		rep.Eval()
+		var analysis []string
 		detail := func(i int) map[string]any {
 			d := map[string]any{"case": ci, "class": class, "requests": len(rqs), "blocks": len(blocks), "requestor_has_initially": len(reqHas)}
 			var rs []string
@@ -214,6 +215,7 @@ func TestC20(t *testing.T) {
 				d["errors_of_failing_request"] = es
 			}
 			d["event_log_tail"] = w.Log.Tail(60)
+			d["missing_link_analysis"] = analysis
 			return d
 		}
 		switch {
@@ -238,12 +240,33 @@ func TestC20(t *testing.T) {
 					all := true
 					_, errs, _, _ := reqs[i].Snapshot()
 					ms, _ := ErrKinds(errs)
-					bev := B.Events()
 					wire := w.Fab.Wire()
-					// hookAt: when the responder's traversal of request id reached link k (0 = never)
+					// hookAt: when the responder's traversal of request id reached link k, read off the wire (the
+					// message that carries the request's metadata entry for k; 0 = never). All responses to one
+					// peer leave through one FIFO queue, so wire order is the order of the link tracker's decisions
 					hookAt := func(id graphsync.RequestID, k string) int64 {
+						for _, m := range wire {
+							if m.From != B.ID {
+								continue
+							}
+							for _, rs := range m.Responses {
+								if rs.ID != id {
+									continue
+								}
+								for _, e := range rs.Meta {
+									if e.Link.String() == k {
+										return m.Seq
+									}
+								}
+							}
+						}
+						return 0
+					}
+					// firstResponseAt: when the responder accepted request id (request-hook event)
+					bev := B.Events()
+					firstResponseAt := func(id graphsync.RequestID) int64 {
 						for _, e := range bev {
-							if e.Kind == "outgoing-block-hook" && e.ID == id && e.Link == k {
+							if e.Kind == "request-hook" && e.ID == id {
 								return e.Seq
 							}
 						}
@@ -276,13 +299,38 @@ func TestC20(t *testing.T) {
 						// already traversed it was still in progress on the responder
 						tB := hookAt(reqs[i].ID, k)
 						inFlight := false
+						analysis = append(analysis, fmt.Sprintf("missing %s: shared=%v reached-by-this-request-at=%d", k[len(k)-8:], shared, tB))
+						for _, wm := range wire {
+							if wm.From != B.ID {
+								continue
+							}
+							for _, rs := range wm.Responses {
+								for _, e := range rs.Meta {
+									if e.Link.String() == k {
+										_, hasData := wm.Blocks[e.Link]
+										analysis = append(analysis, fmt.Sprintf("   wire seq=%d delivered=%d request=%s action=%s block-in-message=%v", wm.Seq, wm.Delivered, rs.ID.String()[:8], e.Action, hasData))
+									}
+								}
+							}
+						}
 						for j := range reqs {
 							if j == i {
 								continue
 							}
-							tA := hookAt(reqs[j].ID, k)
+							// (the order of entries on the wire is not the order of the link tracker's decisions: an
+							// entry that carries block data waits for its memory reservation while a later
+							// "duplicate, not sent" entry of another request goes straight into the message. So "had
+							// already traversed it" is not decidable from the wire; "was being served at that moment" is)
+							loadsIt := false
+							for _, l := range rqs[j].full.Loads {
+								if l.Link.String() == k {
+									loadsIt = true
+								}
+							}
+							started := firstResponseAt(reqs[j].ID)
 							done := terminalSentAt(reqs[j].ID)
-							if tA != 0 && tB != 0 && tA < tB && (done == 0 || done > tB) {
+							analysis = append(analysis, fmt.Sprintf("   request %d: loads it=%v, accepted by the responder at %d, terminal status on the wire at %d", j, loadsIt, started, done))
+							if loadsIt && tB != 0 && started != 0 && started <= tB && (done == 0 || done >= tB) {
 								inFlight = true
 							}
 						}
